@@ -43,13 +43,13 @@ def save_meta(name, meta):
 
 
 def cmd_import(args):
-    src = os.path.join("/tmp/seed", args.prop)
+    src = os.path.join("/tmp/seed2" if args.round == 2 else "/tmp/seed", args.prop)
     for letter in "ab":
         patch = os.path.join(src, "patch_%s.diff" % letter)
         demo = os.path.join(src, "demo_%s.py" % letter)
         if not (os.path.exists(patch) and os.path.exists(demo)):
             continue
-        name = "%s%s" % (args.prop, letter)
+        name = "%s%s" % (args.prop, {"a": "c", "b": "d"}[letter] if args.round == 2 else letter)
         d = os.path.join(SEEDED, name)
         os.makedirs(d, exist_ok=True)
         shutil.copy(patch, os.path.join(d, "patch.diff"))
@@ -148,6 +148,7 @@ def main():
     sub = ap.add_subparsers(dest="cmd")
     p = sub.add_parser("import")
     p.add_argument("prop")
+    p.add_argument("--round", type=int, default=1)
     p = sub.add_parser("confirm")
     p.add_argument("name")
     p.add_argument("--suite", action="store_true")
